@@ -1,2 +1,265 @@
-import Simfile.Model.Views
-import Simfile.Model.Convert
+/-
+C17: SSC → SM conversion. `_should_copy_property` as a decision table over the generated INVALID_PROPERTIES and
+behaviour tables; `_copy_properties` stops at the first rejected item; warps are refused; on the claimed domain the
+conversion never fails with anything but NotImplementedError / InvalidPropertyException.
+-/
+import Simfile.Lemmas.Convert
+import Simfile.Lemmas.ConvertBack
+namespace Simfile.C17
+open Simfile Simfile.O Simfile.V Simfile.Cv
+
+/-! ### 12. the decision table -/
+
+/-- `Cv.listedIn`: the FIRST entry of the table whose key list contains `k`;
+`Cv.behaviourOf`: the caller's entry for a kind if present, else the generated default -/
+theorem listedIn_def (invalid : List (Nat × List Str)) (k : Str) :
+    listedIn invalid k = invalid.find? (fun e => e.2.contains k) := rfl
+theorem behaviourOf_def (beh : List (Nat × Nat)) (kind : Nat) :
+    behaviourOf beh kind = match beh.find? (·.1 = kind) with
+      | some x => x.2
+      | none => ((T.invalidPropertyBehaviors.find? (·.1 = kind)).map (·.2)).getD 0 := rfl
+
+/-- the behaviour codes, named through the generated `invalidPropertyBehaviorNames` -/
+theorem behaviour_codes :
+    T.invalidPropertyBehaviorNames = [("COPY_ANYWAY".toList, bCOPY), ("IGNORE".toList, bIGNORE),
+      ("ERROR_UNLESS_DEFAULT".toList, bUNLESS), ("ERROR".toList, bERROR)] ∧
+    [bCOPY, bIGNORE, bUNLESS, bERROR].Nodup := by decide
+
+theorem should_copy_spec (k : Str) (v : Option Str) (invalid : List (Nat × List Str)) (beh : List (Nat × Nat)) :
+    (invalid.find? (fun e => e.2.contains k) = none → shouldCopy k v invalid beh = .ok true) ∧
+    (∀ e, invalid.find? (fun e => e.2.contains k) = some e →
+      (behaviourOf beh e.1 = bCOPY → shouldCopy k v invalid beh = .ok true) ∧
+      (behaviourOf beh e.1 = bIGNORE → shouldCopy k v invalid beh = .ok false) ∧
+      (behaviourOf beh e.1 = bUNLESS → ∀ s, v = some s → strip s = defaultProperty k →
+        shouldCopy k v invalid beh = .ok false) ∧
+      (behaviourOf beh e.1 = bUNLESS → ∀ s, v = some s → strip s ≠ defaultProperty k →
+        shouldCopy k v invalid beh = .error (.invalidProperty k)) ∧
+      (behaviourOf beh e.1 = bUNLESS → v = none → shouldCopy k v invalid beh = .error .attributeError) ∧
+      (behaviourOf beh e.1 = bERROR → shouldCopy k v invalid beh = .error (.invalidProperty k)) ∧
+      (behaviourOf beh e.1 ∉ [bCOPY, bIGNORE, bUNLESS] → shouldCopy k v invalid beh = .error (.invalidProperty k))) := by
+  obtain ⟨c1, c2, c3, c4⟩ := beh_codes
+  refine ⟨fun h => shouldCopy_not_listed k v invalid beh h, fun e he => ?_⟩
+  have hl : listedIn invalid k = some e := he
+  rw [shouldCopy_eq, hl]
+  simp only []
+  refine ⟨fun hb => ?_, fun hb => ?_, fun hb s hv hs => ?_, fun hb s hv hs => ?_, fun hb hv => ?_, fun hb => ?_,
+    fun hb => ?_⟩
+  · rw [if_pos hb]
+  · rw [if_neg (by rw [hb, c1, c2]; decide), if_pos hb]
+  · rw [if_neg (by rw [hb, c1, c3]; decide), if_neg (by rw [hb, c2, c3]; decide), if_pos hb, hv]
+    simp only [hs, if_true]
+  · rw [if_neg (by rw [hb, c1, c3]; decide), if_neg (by rw [hb, c2, c3]; decide), if_pos hb, hv]
+    simp only [hs, if_false]
+  · rw [if_neg (by rw [hb, c1, c3]; decide), if_neg (by rw [hb, c2, c3]; decide), if_pos hb, hv]
+  · rw [if_neg (by rw [hb, c1, c4]; decide), if_neg (by rw [hb, c2, c4]; decide),
+      if_neg (by rw [hb, c3, c4]; decide)]
+  · simp only [List.mem_cons, List.not_mem_nil, or_false, not_or] at hb
+    rw [if_neg hb.1, if_neg hb.2.1, if_neg hb.2.2]
+
+/-- the generated default behaviours: IGNORE for SSC_VERSION, METADATA, FILE_PATH; ERROR_UNLESS_DEFAULT for
+GAMEPLAY_EVENT, TIMING_DATA -/
+theorem defaults :
+    T.propertyTypes = [("SSC_VERSION".toList, 1), ("METADATA".toList, 2), ("FILE_PATH".toList, 3),
+      ("GAMEPLAY_EVENT".toList, 4), ("TIMING_DATA".toList, 5)] ∧
+    behaviourOf [] (kindCode "SSC_VERSION".toList) = bIGNORE ∧
+    behaviourOf [] (kindCode "METADATA".toList) = bIGNORE ∧
+    behaviourOf [] (kindCode "FILE_PATH".toList) = bIGNORE ∧
+    behaviourOf [] (kindCode "GAMEPLAY_EVENT".toList) = bUNLESS ∧
+    behaviourOf [] (kindCode "TIMING_DATA".toList) = bUNLESS := by decide
+
+example : shouldCopy "ORIGIN".toList (some "x".toList) T.invalidSMSimfile [] = .ok false := by decide
+example : shouldCopy "TITLE".toList (some "x".toList) T.invalidSMSimfile [] = .ok true := by decide
+example : shouldCopy "COMBOS".toList (some " 0.000=1 ".toList) T.invalidSMSimfile [] = .ok false := by decide
+example : shouldCopy "COMBOS".toList (some "0.000=2".toList) T.invalidSMSimfile [] =
+    .error (.invalidProperty "COMBOS".toList) := by decide
+example : shouldCopy "COMBOS".toList (some "0.000=2".toList) T.invalidSMSimfile [(4, 1)] = .ok true := by decide
+
+/-! ### 13. `_copy_properties` -/
+
+/-- `Cv.accepted`: `shouldCopy` answers "copy" -/
+theorem accepted_def (invalid : List (Nat × List Str)) (beh : List (Nat × Nat)) (kv : Str × Option Str) :
+    accepted invalid beh kv = true ↔ shouldCopy kv.1 kv.2 invalid beh = .ok true := by
+  unfold accepted
+  cases h : shouldCopy kv.1 kv.2 invalid beh with
+  | error e => simp
+  | ok b => cases b <;> simp
+
+/-- no item rejected, no write refused: the result is `Dict.set` folded over exactly the accepted items -/
+theorem copy_ok (sm : Bool) (source output : Dict) (invalid : List (Nat × List Str)) (beh : List (Nat × Nat))
+    (h1 : ∀ kv ∈ source, ∃ b, shouldCopy kv.1 kv.2 invalid beh = .ok b)
+    (h2 : sm = true → ∀ kv ∈ source, accepted invalid beh kv = true → kv.1 ∈ T.smChartProperties) :
+    copyProperties sm source output invalid beh = .ok (setAll output (source.filter (accepted invalid beh))) :=
+  copyProperties_ok sm source output invalid beh h1 h2
+
+/-- the FIRST item that `shouldCopy` rejects decides the error (the items before it neither rejected nor refused
+by the SM-chart key guard); the error is `invalidProperty k`, or an AttributeError for a valueless property -/
+theorem copy_first_error (sm : Bool) (pre post output : Dict) (k : Str) (v : Option Str)
+    (invalid : List (Nat × List Str)) (beh : List (Nat × Nat)) (e : CErr)
+    (h1 : ∀ x ∈ pre, ∃ b, shouldCopy x.1 x.2 invalid beh = .ok b)
+    (h2 : sm = true → ∀ x ∈ pre, accepted invalid beh x = true → x.1 ∈ T.smChartProperties)
+    (h3 : shouldCopy k v invalid beh = .error e) :
+    copyProperties sm (pre ++ (k, v) :: post) output invalid beh = .error e ∧
+      (e = .invalidProperty k ∨ (v = none ∧ e = .attributeError)) := by
+  refine ⟨copyProperties_first_error sm pre post output (k, v) invalid beh e h1 h2 ?_, shouldCopy_error k v invalid beh e h3⟩
+  unfold copyStep; simp only [h3]
+
+/-- likewise the first accepted item outside the six keys of an SM chart is a KeyError -/
+theorem copy_first_key_error (pre post output : Dict) (k : Str) (v : Option Str)
+    (invalid : List (Nat × List Str)) (beh : List (Nat × Nat))
+    (h1 : ∀ x ∈ pre, ∃ b, shouldCopy x.1 x.2 invalid beh = .ok b)
+    (h2 : ∀ x ∈ pre, accepted invalid beh x = true → x.1 ∈ T.smChartProperties)
+    (h3 : shouldCopy k v invalid beh = .ok true) (h4 : k ∉ T.smChartProperties) :
+    copyProperties true (pre ++ (k, v) :: post) output invalid beh = .error .keyError := by
+  refine copyProperties_first_error true pre post output (k, v) invalid beh _ h1 (fun _ => h2) ?_
+  unfold copyStep; simp only [h3]
+  exact setItem_keyError _ k v h4
+
+example : copyProperties false [("TITLE".toList, some "x".toList), ("COMBOS".toList, some "0=2".toList),
+      ("WARPS".toList, some "1=2".toList)] [] T.invalidSMSimfile [] = .error (.invalidProperty "COMBOS".toList) := by
+  decide
+example : copyProperties false [("TITLE".toList, some "x".toList), ("ORIGIN".toList, some "y".toList),
+      ("MUSIC".toList, some "z".toList)] [("MUSIC".toList, some "".toList)] T.invalidSMSimfile [] =
+    .ok [("MUSIC".toList, some "z".toList), ("TITLE".toList, some "x".toList)] := by decide
+
+/-! ### 14. warps -/
+
+/-- an SSC source with a non-empty WARPS string is refused, whatever the rest -/
+theorem warps_refused (src : AnySimfile) (st : Option AnySimfile) (ct : Option (Dict × Option (List Str)))
+    (beh : List (Nat × Nat)) (h : src.isSSC = true) (x : Char) (xs : Str)
+    (hw : attrGet .sscSimfile src.props "warps".toList = some (x :: xs)) :
+    convert src false st ct beh = .error .notImplemented := by
+  have e : "warps".toList = ['w','a','r','p','s'] := by decide
+  rw [e, attrGet_warps] at hw
+  rw [convert_eq, convertWarps_ssc src h, hw]
+
+/-- WARPS has no alias: the attribute is the plain key -/
+theorem warps_key (d : Dict) : attrGet .sscSimfile d "warps".toList = (d.get? "WARPS".toList).join := by
+  have e : "warps".toList = ['w','a','r','p','s'] := by decide
+  have e' : "WARPS".toList = ['W','A','R','P','S'] := by decide
+  rw [e, e']; exact attrGet_warps d
+
+example : convert ⟨true, [("WARPS".toList, some "1=2".toList)], []⟩ false none none [] = .error .notImplemented :=
+  warps_refused _ _ _ _ rfl '1' "=2".toList (by decide)
+
+/-! ### 15. no other failure on the claimed domain -/
+
+/-- the claimed domain: an SSC source; every property listed as invalid for SM simfiles has a value; every chart
+key is one of the six SM fields (and not listed) or is listed in `T.invalidSMChart` and has a value; no chart
+property kind is mapped to COPY_ANYWAY -/
+structure DomSSC (src : AnySimfile) (beh : List (Nat × Nat)) : Prop where
+  ssc : src.isSSC = true
+  propVals : ∀ kv ∈ src.props, Listed T.invalidSMSimfile kv.1 → kv.2 ≠ none
+  chartKeys : ∀ c ∈ src.charts, ∀ kv ∈ c.1,
+    (kv.1 ∈ T.smChartProperties ∧ ¬ Listed T.invalidSMChart kv.1) ∨ (Listed T.invalidSMChart kv.1 ∧ kv.2 ≠ none)
+  noCopy : ∀ e ∈ T.invalidSMChart, behaviourOf beh e.1 ≠ bCOPY
+
+theorem total (src : AnySimfile) (st : Option AnySimfile) (ct : Option (Dict × Option (List Str)))
+    (beh : List (Nat × Nat)) (h : DomSSC src beh) :
+    (∃ out, convert src false st ct beh = .ok out) ∨ convert src false st ct beh = .error .notImplemented ∨
+      ∃ k, convert src false st ct beh = .error (.invalidProperty k) := by
+  -- a rejected item with a value gives `invalidProperty`
+  have rej : ∀ (invalid : List (Nat × List Str)) (kv : Str × Option Str) (e : CErr),
+      (Listed invalid kv.1 → kv.2 ≠ none) → shouldCopy kv.1 kv.2 invalid beh = .error e →
+      e = .invalidProperty kv.1 := by
+    intro invalid kv e hv he
+    rcases shouldCopy_error _ _ _ _ _ he with h1 | ⟨h1, _⟩
+    · exact h1
+    · have hl : listedIn invalid kv.1 ≠ none := by
+        intro hn; rw [shouldCopy_not_listed _ _ _ _ hn] at he; cases he
+      exact absurd h1 (hv ((listedIn_ne_none _ _).mp hl))
+  rw [convert_eq]
+  rcases convertWarps_ssc_cases src h.ssc with hw | hw
+  · rw [hw]
+    simp only []
+    cases hp : copyProperties false src.props (startOf false st).props (invSimOf false) beh with
+    | error e =>
+      obtain ⟨kv, hkv, hh | ⟨_, hh, _⟩⟩ := copyProperties_error _ _ _ _ _ _ hp
+      · have := rej _ kv e (h.propVals kv hkv) hh
+        subst this
+        exact Or.inr (Or.inr ⟨kv.1, rfl⟩)
+      · cases hh
+    | ok props =>
+      simp only []
+      cases hc : src.charts.mapM (convChart false ct beh) with
+      | ok charts => exact Or.inl ⟨_, rfl⟩
+      | error e =>
+        obtain ⟨c, hcm, hce⟩ := mapM_error _ _ _ hc
+        rw [convChart_eq] at hce
+        cases hcp : copyProperties (!false) c.1 (chartStartOf false ct).1 (invChartOf false) beh with
+        | ok d => rw [hcp] at hce; cases hce
+        | error e' =>
+          rw [hcp] at hce; cases hce
+          obtain ⟨kv, hkv, hh | ⟨hacc, _, hnot, _⟩⟩ := copyProperties_error _ _ _ _ _ _ hcp
+          · have hv : Listed T.invalidSMChart kv.1 → kv.2 ≠ none := by
+              intro hl
+              rcases h.chartKeys c hcm kv hkv with ⟨_, hn⟩ | ⟨_, hv⟩
+              · exact absurd hl hn
+              · exact hv
+            have := rej _ kv e hv hh
+            subst this
+            exact Or.inr (Or.inr ⟨kv.1, rfl⟩)
+          · exfalso
+            rcases h.chartKeys c hcm kv hkv with ⟨hin, _⟩ | ⟨hl, _⟩
+            · exact hnot hin
+            · have hl' := (listedIn_ne_none _ _).mpr hl
+              cases hle : listedIn T.invalidSMChart kv.1 with
+              | none => exact hl' hle
+              | some en =>
+                exact shouldCopy_listed_not_true kv.1 kv.2 _ beh en hle
+                  (h.noCopy en (listedIn_some _ _ _ hle).1) hacc
+  · rw [hw]; exact Or.inr (Or.inl rfl)
+
+example : DomSSC ⟨true, [("TITLE".toList, some "x".toList), ("COMBOS".toList, some "0=2".toList)],
+    [([("STEPSTYPE".toList, some "dance-single".toList), ("BPMS".toList, some "".toList)], none)]⟩ [] where
+  ssc := rfl
+  propVals := by decide
+  chartKeys := by decide
+  noCopy := by decide
+
+/-- outside the domain a KeyError does happen: a chart key that is neither an SM field nor listed -/
+example : convert ⟨true, [], [([("FOO".toList, some "x".toList)], none)]⟩ false none none [] = .error .keyError := by
+  decide
+
+/-! ### 16. there and back -/
+
+/-- every SSC-only key of the blank SSC templates is of an ignored kind or carries exactly its table default
+(so `ssc_to_sm` skips it silently); every other key of the blank SSC chart is one of the six SM fields -/
+theorem blank_ssc_extras_ok :
+    (∀ kv ∈ T.blankSSCSimfile, ∀ e ∈ T.invalidSMSimfile, listedIn T.invalidSMSimfile kv.1 = some e →
+      behaviourOf [] e.1 = bIGNORE ∨
+      (behaviourOf [] e.1 = bUNLESS ∧ kv.2.map strip = some (defaultProperty kv.1))) ∧
+    (∀ kv ∈ T.blankSSCChart, ∀ e ∈ T.invalidSMChart, listedIn T.invalidSMChart kv.1 = some e →
+      behaviourOf [] e.1 = bIGNORE ∨
+      (behaviourOf [] e.1 = bUNLESS ∧ kv.2.map strip = some (defaultProperty kv.1))) ∧
+    (∀ kv ∈ T.blankSSCChart, listedIn T.invalidSMChart kv.1 = none → kv.1 ∈ T.smChartProperties) := by
+  decide +kernel
+
+/-- the SM simfiles of the round trip: distinct keys, none of them SSC-only; BPMs and stops parse and are not
+negative (`_convert_warps` accepts them); every chart has distinct keys among the six SM fields -/
+structure DomBack (sm : AnySimfile) : Prop where
+  isSM : sm.isSSC = false
+  wf : Dict.WF sm.props
+  noSSCOnly : ∀ k ∈ Dict.keys sm.props, ¬ Listed T.invalidSMSimfile k
+  warps : convertWarps sm = .ok ()
+  charts : ∀ c ∈ sm.charts, Dict.WF c.1 ∧ ∀ k ∈ Dict.keys c.1, k ∈ T.smChartProperties
+
+/-- SM → SSC → SM with default arguments succeeds and gives back every original property and every chart field
+(the charts again have exactly the six keys; `extradata` is not carried over) -/
+theorem there_and_back (sm : AnySimfile) (h : DomBack sm) :
+    ∃ ssc sm', convert sm true none none [] = .ok ssc ∧ convert ssc false none none [] = .ok sm' ∧
+      sm'.isSSC = false ∧ (∀ kv ∈ sm.props, sm'.props.get? kv.1 = some kv.2) ∧
+      ∃ back, sm'.charts = sm.charts.map back ∧
+        ∀ c ∈ sm.charts, Dict.keys (back c).1 = T.smChartProperties ∧
+          ∀ kv ∈ c.1, (back c).1.get? kv.1 = some kv.2 := by
+  obtain ⟨out, back, hb, hp, hc⟩ := convert_back sm.props sm.charts h.wf h.noSSCOnly h.charts
+  exact ⟨_, _, convert_toSSC sm none none [] h.warps, hb, rfl, hp, back, rfl, hc⟩
+
+example : DomBack ⟨false, [("FREEZES".toList, some "1=2".toList), ("TITLE".toList, some "x".toList)],
+    [(T.blankSMChart, some ["extra".toList])]⟩ where
+  isSM := rfl
+  wf := by unfold Dict.WF; decide
+  noSSCOnly := by decide
+  warps := by decide +kernel
+  charts := by unfold Dict.WF; decide +kernel
+
+end Simfile.C17
